@@ -1462,3 +1462,38 @@ func afterClassAlways(fn *ssa.Function, class types.Type, stop func(ssa.Instruct
 	}
 	return nil, found
 }
+
+// isServerErrorProbe: a call that answers "does some call of the retry list carry a ServerError":
+// the hasServerError helper, or slices.ContainsFunc with a literal that asserts region.ServerError.
+func isServerErrorProbe(p *kit.Prog, call *ssa.Call) bool {
+	n := kit.CalleeName(call)
+	if strings.HasSuffix(n, ".hasServerError") {
+		return true
+	}
+	if !strings.HasPrefix(n, "slices.ContainsFunc") {
+		return false
+	}
+	se := p.Named("region", "ServerError")
+	for _, a := range call.Call.Args {
+		var lit *ssa.Function
+		switch x := kit.Strip(a).(type) {
+		case *ssa.MakeClosure:
+			lit, _ = x.Fn.(*ssa.Function)
+		case *ssa.Function:
+			lit = x
+		}
+		if lit == nil {
+			continue
+		}
+		found := false
+		kit.Instrs(lit, func(in ssa.Instruction) {
+			if ta, ok := in.(*ssa.TypeAssert); ok && se != nil && types.Identical(ta.AssertedType, se) {
+				found = true
+			}
+		})
+		if found {
+			return true
+		}
+	}
+	return false
+}
